@@ -909,6 +909,10 @@ def chunk(R, P):
         import re
         byte_tests = [b for b in f.blocks.values() if b.id in real[hdr] and b.cond is not None and re.search(r"\bbyte\b", f.show(b.cond))]
         ok = ok and all(any(e.blk == t.id or (e.blk in dom.get(t.id, ())) for e in reads) for t in byte_tests)
+    # one byte per round: the index moves by exactly one, at one place - a second advance inside the body takes bytes that the
+    # per-byte step (continuation check included) never sees when they happen to lie in the same chunk
+    steps = [x for blk, x, nm in incs]
+    ok = ok and len(steps) == 1 and ((steps[0]["k"] == "un") or (steps[0]["k"] == "bin" and steps[0]["op"] == "+=" and f.is_const(steps[0]["a"][1]) == 1))
     R.check(ok, "CHUNK", "update:every-byte-through-the-step", "%s()" % f.name, "the byte index advances only in the loop whose body first consults decoder->remaining (%d advance sites)" % len(incs),
             "the byte index is advanced outside the per-byte step that consults decoder->remaining: the verdict depends on how the text is chunked")
     # (2) no local other than the index survives an iteration
@@ -1001,6 +1005,7 @@ MUTANTS = [
     {"name": "reported-more-than-written", "file": ENC, "expect": "REPORTED<=WRITTEN", "old": "    output->len = decoded_length;\n    return AWS_OP_SUCCESS;\n}\n\nstruct aws_utf8_decoder {", "new": "    output->len = decoded_length;\n    return AWS_OP_SUCCESS;\n}\n\nstruct aws_utf8_decoder  {"},
     {"name": "dispatch-before-capacity-check", "file": ENC, "expect": "DISPATCH", "old": "    if (output->capacity < decoded_length) {\n        return aws_raise_error(AWS_ERROR_SHORT_BUFFER);\n    }\n\n    if (aws_common_private_has_avx2()) {", "new": "    if (!aws_common_private_has_avx2() && output->capacity < decoded_length) {\n        return aws_raise_error(AWS_ERROR_SHORT_BUFFER);\n    }\n\n    if (aws_common_private_has_avx2()) {"},
     {"name": "avx-main-loop-one-stride-too-many", "file": AVX, "expect": "AVX-SHELL", "old": "    while (inlen >= 32) {", "new": "    while (inlen >= 24) {"},
+    {"name": "utf8-three-byte-shortcut-inside-one-chunk", "file": ENC, "expect": "CHUNK", "old": "    for (size_t i = 0; i < bytes.len; ++i) {\n        uint8_t byte = bytes.ptr[i];", "new": "    for (size_t i = 0; i < bytes.len; ++i) {\n        uint8_t byte = bytes.ptr[i];\n        if (decoder->remaining == 0 && (byte & 0xF0) == 0xE0 && bytes.len - i > 2 && (bytes.ptr[i + 1] & 0xC0) == 0x80) {\n            i += 2;\n            continue;\n        }"},
     {"name": "utf8-ascii-fast-path", "file": ENC, "expect": "CHUNK", "old": "    for (size_t i = 0; i < bytes.len; ++i) {\n        uint8_t byte = bytes.ptr[i];", "new": "    size_t i = 0;\n    while (i < bytes.len && (bytes.ptr[i] & 0x80) == 0) {\n        ++i;\n    }\n    for (; i < bytes.len; ++i) {\n        uint8_t byte = bytes.ptr[i];"},
 ]
 MUTANTS = [m for m in MUTANTS if m["name"] != "reported-more-than-written"]
